@@ -1,4 +1,4 @@
-# C10-edit-stale-text-canvas: exit 1 on the current tree, 0 with the proposed patch
+# fixed by 26ac819 (was known finding C10-edit-stale-text-canvas): exit 1 before the fix, 0 after
 import urwid
 e = urwid.Edit("", "abcdefgh", wrap="clip")      # cursor after the 'h'
 c1 = e.render((4,), False)                         # unfocused render; its canvas stays alive (a screen keeps it)
